@@ -216,6 +216,10 @@ H("k_rekey_chain2_mixed", "keys_model2", ["C06", "C11", "C04"], "quick", unwind=
   desc="rekey from an arbitrary 2-secret chain: the new secret inherits flag and flavour of the FRONT (not of an older "
        "secret); older secrets untouched",
   bounds=KL + "1 right, chain of 2, both activation flags and both flavours symbolic, RNG symbolic", **_k)
+H("k_prune_chain2_mixed", "keys_model2", ["C05", "C06"], "quick", unwind=5,
+  covers=["front disabled, pruned secret was flagged activated", "front classic, pruned secret was hybridized"],
+  desc="prune from an arbitrary state: exactly the front stays with its own flag and flavour; the other right is untouched",
+  bounds=KL + "2 rights x 2 secrets, all 4 activation flags and all 4 flavours symbolic", **_k)
 for _n, _t in [("k_rekey_first_of_two_rights", "quick"), ("k_rekey_second_of_two_rights", "quick")]:
     H(_n, "keys_model2", ["C06", "C11"], _t, unwind=4,
       covers=["one right disabled, the other activated", "one right hybridized, the other classic"],
